@@ -950,10 +950,18 @@ theorem src_thub_is_model (f : Nat) (st : St α) (s : ALV.C03.Src α) (n : Nat) 
   stepP_thub f st s n
 
 open ALV.C03.Src in
+/-- `lazy_itertools.tee(x, n)` on an object of the pool: `isinstance(data, (Stream, Iterator))` holds, and
+    `tuple(Stream(cp) for cp in it.tee(data, n))` is the `.tee` branch of the model (the iterator of the object is
+    taken — a Stream is moved, a hub gives a use —, one `itertools.tee` over it, `n` new Streams on its output) -/
+theorem src_tee_is_model (f : Nat) (st : St α) (i n : Nat) :
+    teeP ALV.Gen.C03.progs st i n = step f st (.tee i n) :=
+  stepP_tee f st i n
+
+open ALV.C03.Src in
 /-- **the model's step function is the interpretation of the regenerated programs**, for every fuel, state and
-    operation (take / peek / skip / limit / append / map / filter / copy on Streams and StreamTeeHubs, `thub` and
-    `StreamTeeHub.__init__` come from the programs; the constructor, `next(iter(x))`, `list(x)`, `tee` are the
-    hand-written branches on both sides) -/
+    operation (take / peek / skip / limit / append / map / filter / copy on Streams and StreamTeeHubs, `thub`,
+    `StreamTeeHub.__init__` and `lazy_itertools.tee` come from the programs; the constructor, `next(iter(x))`,
+    `list(x)` are the hand-written branches on both sides) -/
 theorem src_step_is_model : @stepP α ALV.Gen.C03.progs = step := by
   funext f st op; exact stepP_gen f st op
 
